@@ -315,6 +315,12 @@ namespace options
     template <typename Options, typename Iter>
     bool parser::try_parse_as_option(Options&& options, Iter& it, Iter end)
     {
+        // a value-taking option cannot hide inside a bundle of short names like -vo
+        if (it->is_short() && it->as_short_list().size() > 1)
+        {
+            return false;
+        }
+
         for (auto& option : options)
         {
             if (option.second->matches(*it))
@@ -353,7 +359,30 @@ namespace options
         // Therefore, we need to keep checking all toggles, even after one match.
         auto match_found = false;
 
-        for (auto& option : get_all_toggles())
+        auto toggles = get_all_toggles();
+
+        if (in.is_short())
+        {
+            // every single letter of the bundle must be the short name of a toggle, otherwise
+            // the letters matching nothing would be dropped silently
+            auto list = in.as_short_list();
+            std::size_t covered = 0;
+
+            for (auto& option : toggles)
+            {
+                if (option.second->has_short_name())
+                {
+                    covered += list.count(option.second->short_name());
+                }
+            }
+
+            if (covered != list.size())
+            {
+                return false;
+            }
+        }
+
+        for (auto& option : toggles)
         {
             if (option.second->matches(in))
             {
